@@ -18,6 +18,7 @@ import concurrent.futures
 import os
 import shutil
 import socket
+import subprocess
 
 import core
 import xcp
@@ -94,7 +95,7 @@ def run(ctx, out):
                 "under the same kind of faults: copy() returns and the update channel closes; block_size 0 returns an error; "
                 "(c) empty trees; (d) a FIFO / socket / directory / dangling link / link-to-FIFO named .gitignore under --gitignore "
                 "(root and sub-directory): never opened, run ends; (d') a FIFO source whose destination name is already taken by a directory / "
-                "file / link / dangling link / FIFO / socket, with and without -n: the run ends; (e) the environment truncates the source at the n-th "
+                "file / link / dangling link / FIFO / socket, with and without -n: the run ends; (d'') second copies with --backup numbered / auto over names of 250-255 bytes; (e) the environment truncates the source at the n-th "
                 "copy_file_range / lseek / pread / read on it (dense and sparse, both drivers, kernel copy available or failing "
                 "with EXDEV / ENOSYS): the run must end; non-trivial = run with an injected fault; distinct = (plan, driver, workers, entry point)"
                 % (nfiles, bound_ms // 1000))
@@ -324,6 +325,30 @@ def run(ctx, out):
                     out.violation("xcp does not terminate when a %s sits where a FIFO has to be recreated (%s%s; %d calls traced before the bound)"
                                   % (found, driver, " -n" if extra else "", len(r.trace)), dict(argv=argv[1:], found=found))
                 shutil.rmtree(d, ignore_errors=True)
+    # (d'') names at the limit: a second copy with backups over files whose names are 250..255 bytes long — `<name>.~N~` does not
+    # fit in a directory entry for the longest of them; whatever xcp decides (fail, or find a name), it must END
+    for driver in ("parfile", "parblock"):
+        for mode in ("numbered", "auto"):
+            for w in ((1, 4) if not quick else (rng.choice([1, 4]),)):
+                d = os.path.join(d0, "longnames_%s_%s_%d" % (driver, mode, w))
+                os.makedirs(os.path.join(d, "src"))
+                for i, ln in enumerate((10, 250, 251, 252, 253, 255)):
+                    open(os.path.join(d, "src", (chr(97 + i) * ln)), "wb").write(b"first version %d" % i)
+                first = xcp.run_plain([ctx.bins["xcp"], "-r", "-T", "src", "dst"], d)
+                for i, ln in enumerate((10, 250, 251, 252, 253, 255)):
+                    open(os.path.join(d, "src", (chr(97 + i) * ln)), "wb").write(b"second version %d" % i)
+                    if mode == "auto" and ln >= 251:
+                        pass
+                argv = [ctx.bins["xcp"], "-r", "-T", "--backup", mode, "--driver", driver, "-w", str(w), "src", "dst"]
+                r = xcp.run_supervised(sup, argv, d, d, tag="ln", timeout_ms=20000)
+                out.case(("long-names-backup", driver, mode, w), True)
+                out.count("long_name_backup_runs")
+                if first.exit != 0:
+                    out.violation("plain copy of files with long names failed: %s" % first.stderr[-200:], dict(argv=argv[1:]))
+                elif r.meta.get("timeout") or r.exit == 124:
+                    out.violation("xcp did not end within 20 s: second copy with --backup %s over files whose names are up to 255 bytes long (%s, %d workers)"
+                                  % (mode, driver, w), dict(argv=argv[1:], names="lengths 10, 250, 251, 252, 253, 255"))
+                subprocess.run(["rm", "-rf", d], capture_output=True)
     # (e) the ENVIRONMENT shrinks a source while it is being copied (the supervisor truncates it at a chosen call of
     #     xcp on that file): every loop must notice the lack of progress — dense and sparse sources, both drivers,
     #     kernel copy available or not (user-space fallbacks), truncation to 0 / to the current position / mid-block
